@@ -295,4 +295,7 @@ def r07_5(chk):
         ok = ok and (a0 in ('k0', 'self.k0') or a0.startswith('self.calc_k0(')) and (a1 in ('fext', 'self.fext') or a1.startswith('self.calc_fext('))
         apps = sorted(norm(c) for c in pyflow.calls_in(f) if isinstance(c.func, ast.Attribute) and c.func.attr == 'append')
         ok = ok and apps == ['self.cs.append(c)', 'self.increments.append(1.0)']
-    chk.ob('R07.5', ok, 'compmech/analysis/analysis.py', 'Analysis.static', 'linear branch solves (k0, fext)', got=[norm(c) for c in calls])
+    chk.ob('R07.5', ok, 'compmech/analysis/analysis.py', 'Analysis.static', 'linear branch solves (k0, fext)',
+           expected='under `not NLgeom`: c = solve(k0, fext) with k0 = self.calc_k0(...) and fext = self.calc_fext(...) evaluated in this request; increments [1.0], cs [c]',
+           got=[norm(c) for c in calls] + (['operands resolve to %s, %s' % (a0, a1)] if len(calls) == 1 else []),
+           detail='' if ok else 'a stiffness matrix or load vector that is not recomputed by this request (cached, or another quantity) is solved: the result does not satisfy K c = f of the present definition')
